@@ -2,7 +2,7 @@
 \* detector (standard 2 calls, sliding w+2 capped at 5, fading 4), 3 significance levels.
 \* Every finished history is emitted (HIST) and replayed into the real classes.
 SPECIFICATION Spec
-CONSTANTS Kinds = {"standard", "sliding", "fading"} Windows = {1, 2, 3, 4} NAlpha = 3
+CONSTANTS Kinds = {"standard", "sliding", "fading"} Windows = {1, 2, 3, 4} NAlpha = 3 Bank = TRUE
           NisVals = {0, 3, 8} NisDen = 1 Dims = {1, 3}
           MaxLen = 5 FadeLen = 4 Trim = TRUE KeepHist = TRUE
 CONSTANT Deltas <- DeltasQuick
